@@ -1273,8 +1273,13 @@ func (r *Runner) Step(i int) error {
 		return fmt.Errorf("step %d %s: %v", i, s.String(), err)
 	}
 	if r.Plan.Opt.CheckLevels && r.DB != nil {
-		switch s.K {
-		case "flush", "compact", "wait", "ingest", "ingestexcise", "excise", "restart":
+		// Options.DebugCheck = DebugCheckLevels already runs pebble's own level
+		// checker on every version installation; the explicit check and the
+		// independent checker (which reads every table) run at quiescent points,
+		// after manual compactions and at the last step.
+		last := i == len(r.Plan.Steps)-1
+		switch k := s.K; {
+		case k == "wait" || k == "restart" || k == "compact" || k == "ingestexcise" || k == "excise" || last:
 			// the version must not change under the checker: quiesce first.
 			r.Wait()
 			if err := r.DB.CheckLevels(nil); err != nil {
